@@ -13,7 +13,7 @@ Definition bind_facts_ok (f : facts) : Prop :=
 Lemma ad_bound_holds f w k n : bind_facts_ok f ->
   lookup (flagkey f (w_prefix w) k) (bound_envs f w) = Some n -> getenv f w n = autoget f w k.
 Proof.
-  intros [HK [HS HA]]. unfold bound_envs. induction (w_flags w) as [|[[[ev t] d] s] l IH]; simpl; [intros; discriminate|].
+  intros [HK [HS HA]]. unfold bound_envs. induction (w_flags w) as [|[[ev t] ms] l IH]; simpl; [intros; discriminate|].
   destruct (str_eqb _ _) eqn:E; auto.
   intros H. inversion H; subst. apply str_eqb_eq in E.
   unfold autoget. rewrite HA. f_equal. apply bound_env_is_auto_env_l; auto.
@@ -37,6 +37,24 @@ Lemma load_precedence_fixed_l f w sc k t d :
   is_flagkey f k = false -> unshadowed f w k ->
   final_val f w sc k = Some (spec_val f w k d).
 Proof. intros. eapply load_precedence_l; eauto using unshadowed_adequate. Qed.
+
+(* what "an explicitly set flag wins" needs of multiFlags: nil members are skipped by both scans *)
+Definition multi_facts_ok (f : facts) : Prop :=
+  l_multi_changed_nil (lf f) = NilSkip /\ l_multi_value_nil (lf f) = NilSkip.
+
+Lemma set_member_wins_l f w sc k t d ty pre dm a post :
+  link_facts_ok f = true -> bind_facts_ok f -> multi_facts_ok f ->
+  NoDup (map fst (leaves [] sc)) -> In (k, (t, d)) (leaves [] sc) ->
+  is_flagkey f k = false -> unshadowed f w k ->
+  lookup (flagkey f (w_prefix w) k) (bound_members f w) = Some (ty, pre ++ MFlag dm (Some a) :: post) ->
+  Forall quiet pre ->
+  final_val f w sc k = Some (rep_flag ty a).
+Proof.
+  intros L B [M1 M2] ND HI NF US LK Q.
+  rewrite (load_precedence_fixed_l f w sc k t d L B ND HI NF US). f_equal.
+  destruct (mf_set_member_seen pre dm a post Q) as [C V].
+  eapply spec_flag_wins. rewrite bound_flags_lookup, LK. unfold mf_entry. rewrite M1, M2, C, V. reflexivity.
+Qed.
 
 (* an empty variable counts as not set exactly when AllowEmptyEnv(false) *)
 Lemma empty_env_unset_l f w name :
